@@ -51,7 +51,7 @@ pub fn run_case(c: &Sexp) -> Option<R<Sexp>> {
     let mine = matches!((op, l.len()),
         ("parse-subgoal", 2) | ("parse-complex", 2) | ("tokenize", 2) | ("token-tree", 2) |
         ("generate-goal", 3) | ("parse-rule", 3) | ("show-goal", 2) | ("show-rule", 2) | ("show-term", 2) |
-        ("show-infix", 2));
+        ("show-infix", 2) | ("show-parse", 2));
     if !mine { return None; }
     let arg_str = |i: usize| -> R<String> { str_of_atom(l[i].atom()?) };
     let run = || -> R<Sexp> {
@@ -66,6 +66,11 @@ pub fn run_case(c: &Sexp) -> Option<R<Sexp>> {
             "show-goal" => Ok(ok(A(atom_of_str(&goal_of(&l[1])?.to_string())))),
             "show-term" => Ok(ok(A(atom_of_str(&term_of(&l[1])?.to_string())))),
             "show-rule" => Ok(ok(A(atom_of_str(&rule_of(&l[1])?.to_string())))),
+            // Display, then parse_term of the text just written
+            "show-parse" => {
+                let text = term_of(&l[1])?.to_string();
+                Ok(L(vec![a("ok"), A(atom_of_str(&text)), res(parse_term(&text), sexp_of_term)]))
+            },
             "show-infix" => {
                 let i = match l[1].atom()? {
                     "none" => Infix::None, "unify" => Infix::Unify, "equal" => Infix::Equal,
